@@ -20,10 +20,6 @@ RULE = ("exhaustive product: entry point (Output / SectionOutput / IO std+err / 
         "stream is observed after every call and compared call by call; the oracle decides allowed / refused from quiet, verbosity "
         "and flags alone and asks: no byte from a refused call, no mark of a refused text anywhere in the stream, and (decorated) "
         "screen = stacked contents; non-trivial = at least one refused call")
-THEOREMS = ["gate_level", "gate_iff", "gate_monotone", "quiet_silent", "refused_call_is_invisible",
-            "refused_text_never_appears", "gated_run_is_section_run",
-            "refused_arguments_do_not_matter", "gated_screen_is_stack", "groups_are_one_run",
-            "may_write_matches_source", "gate_constants_match_source", "source_gate_level"]
 TRUSTED = ["which gate calls guard each method body (Model/Gate.v path) is a transcription, checked by this exhaustive tie",
            "harness/translate.py (fail-closed translator of a pure subset of Python, driven by ast; its reading of that subset and the "
            "declared types of self._quiet / self._verbosity / flags are trusted) regenerates coq/theories/Generated/GenGate.v from "
